@@ -16,7 +16,8 @@ Definition body_texts : list bstr :=
    t_ns2; t_ns3; t_optdata_init; t_var_output; t_return_output; t_fn_end; t_truncate_true; t_eq0; t_eqeq; t_minus1;
    t_opt_ij; t_opt_data; t_opt_data_dot; t_nullsafe; t_empty_obj; t_augment; t_augment_mid; t_augment_end; t_call_tail;
    t_else; t_if_open; t_brace_nl; t_for_open; t_semi_sp; t_lt; t_for_close; t_length; t_gt0; t_eq0_semi; t_plusplus;
-   t_else_block; t_switch_open; t_case; t_default; t_break; t_plural_open; t_plural_close; []].
+   t_else_block; t_switch_open; t_case; t_default; t_break; t_plural_open; t_plural_close; [];
+   t_count1; t_minus; t_count2; t_count3; t_plus; t_times].
 
 (* texts that come from the regenerated tables *)
 Definition piece_texts (ps : list (bstr + nat)) : list bstr :=
@@ -116,8 +117,12 @@ Lemma sp_push : jsp T jsc_push.
 Proof. unfold jsc_push. jstep. Qed.
 Lemma sp_pop : jsp T jsc_pop.
 Proof. unfold jsc_pop. jstep. Qed.
+Lemma sp_genname v : jsp T (jsc_genname v).
+Proof. unfold jsc_genname. repeat jstep. Qed.
+Lemma sp_bind v g : jsp T (jsc_bind v g).
+Proof. unfold jsc_bind. jstep. jstep. destruct (j_scope x); repeat jstep. Qed.
 Lemma sp_makevar v : jsp T (jsc_makevar v).
-Proof. unfold jsc_makevar. jstep. jstep. destruct (j_scope x); repeat jstep. Qed.
+Proof. unfold jsc_makevar. jstep. apply sp_genname. jstep. apply sp_bind. jstep. Qed.
 Lemma sp_lookup_var v : jsp T (lookup_var v).
 Proof. unfold lookup_var. repeat jstep. Qed.
 Lemma sp_push_for_range v : jsp T (jsc_push_for_range v).
@@ -154,7 +159,7 @@ Hypothesis Hw : forall n, Pn n -> jsp T (w n).
 
 Ltac jknown :=
   first [ apply sp_jindent | (apply sp_jsln; solveF) | apply sp_indent_inc | apply sp_indent_dec | apply sp_bufname | apply sp_push | apply sp_pop
-        | apply sp_makevar | apply sp_lookup_var | apply sp_push_for_range | apply sp_push_for_each
+        | apply sp_makevar | apply sp_genname | apply sp_bind | apply sp_lookup_var | apply sp_push_for_range | apply sp_push_for_each
         | (apply Hw; auto; fail) ].
 Ltac jgo := repeat first [ jknown | jstep ]; try exact I.
 
@@ -242,18 +247,25 @@ Proof.
       * destruct (pick_alt_in _ _ _ Ep) as (g & Hg).
         jstep. apply sp_apply_pieces; auto. intros t Ht. eapply Q_table_func; eauto. apply jspec_note_called. apply Q_fmt_function.
       * apply jspec_note_called. apply Q_fmt_function.
-    + unfold loop_index, loop_limit. jgo.
+    + destruct (bstr_eqb name jn_isFirst || bstr_eqb name jn_isLast || bstr_eqb name jn_index); [|jgo].
+      jstep. jstep. destruct (jsc_loop (j_scope x) (loop_var_of args)) as [ix lim]. jgo.
 Qed.
 
 (* ---- data references ---- *)
-Lemma sp_dataref_access acc expr : Forall Pn acc -> Forall Q expr -> jsp (Forall Q) (jdataref_access w acc expr).
+Lemma sp_dataref_access acc expr closers : Forall Pn acc -> Forall Q expr -> Forall Q closers ->
+  jsp (Forall Q) (jdataref_access w acc expr closers).
 Proof.
-  revert expr. induction acc as [|a rest IH]; intros expr Fa Fe; cbn. apply jspec_ret; auto.
+  revert expr closers. induction acc as [|a rest IH]; intros expr closers Fa Fe Fc; cbn [jdataref_access].
+  apply jspec_ret. solveF.
   inversion Fa; subst.
+  assert (Hp : forall ns : bool, jsp (Forall Q)
+            (if ns then emit ([CText t_op_open] ++ expr ++ [CText t_nullsafe]);;; jret (CText t_rpar :: closers) else jret closers)).
+  { intros [|]. eapply jspec_bind. apply jspec_emit. solveF. intros _ _. apply jspec_ret. solveF. apply jspec_ret; auto. }
   destruct a; try (apply IH; auto; fail).
-  - jstep. destruct nullsafe; jgo. apply IH; auto. solveF.
-  - jstep. destruct nullsafe; jgo. apply IH; auto. solveF.
-  - pnc H1. fsplit. jstep. destruct nullsafe; jgo. eapply jspec_bind. apply sp_block; auto. intros bl Fbl. apply IH; auto. solveF.
+  - eapply jspec_bind. apply Hp. intros cl Fcl. apply IH; auto. solveF.
+  - eapply jspec_bind. apply Hp. intros cl Fcl. apply IH; auto. solveF.
+  - pnc H1. fsplit. eapply jspec_bind. apply Hp. intros cl Fcl.
+    eapply jspec_bind. apply sp_block; auto. intros bl Fbl. apply IH; auto. solveF.
 Qed.
 
 Lemma sp_visit_dataref key acc : Forall Pn acc -> jsp T (visit_dataref w key acc).
@@ -275,7 +287,9 @@ Proof.
   destruct (assoc_s name js_directives) as [[jn cancel]|] eqn:Ed; [|apply jspec_fail].
   destruct (bstr_eqb name n_id || bstr_eqb name n_noAutoescape). apply IH; auto.
   eapply jspec_bind. apply jspec_note_called. apply Q_fmt_directive. intros _ _. apply IH; auto.
-  pnc H1. apply Forall_app. split; auto.
+  pnc H1. apply Forall_app. split; [|constructor; auto].
+  destruct (bstr_eqb name n_changeNewlineToBr || bstr_eqb name n_insertWordBreaks); auto.
+  apply Forall_app. split; auto. constructor; [cbn; constructor|constructor].
 Qed.
 
 Lemma Q_directive_js name : Q (CText (directive_js name)).
@@ -335,17 +349,30 @@ Proof.
   pnc H1. fsplit. destruct cond as [c0|]; cbn [opt_list] in *; fsplit; jgo; apply IH; auto.
 Qed.
 
-Lemma sp_visit_for_range var args body : Forall Pn args -> Pn body -> jsp T (visit_for_range w var args body).
+Lemma sp_visit_loop body ie vd item vlen vidx : Pn body -> Forall Pn (opt_list ie) -> Forall Q item ->
+  jsp T (visit_loop w body ie vd item vlen vidx).
 Proof.
-  intros Fa Hb. unfold visit_for_range.
+  intros Hb Fi Fit. unfold visit_loop. destruct ie as [ie|]; cbn [opt_list] in Fi; fsplit; jgo.
+Qed.
+
+Lemma sp_visit_for_range var args body ie : Forall Pn args -> Pn body -> Forall Pn (opt_list ie) -> jsp T (visit_for_range w var args body ie).
+Proof.
+  intros Fa Hb Fi. unfold visit_for_range.
   destruct args as [|a1 [|a2 [|a3 [|a4 r]]]]; try apply jspec_fail; fsplit;
-    (eapply jspec_bind; [apply sp_push_for_range | intros [vi vl] _; jgo]).
+    (eapply jspec_bind; [apply sp_block; auto|intros ie0 F0];
+     eapply jspec_bind; [apply sp_block; auto|intros se0 F1];
+     eapply jspec_bind; [apply sp_block; auto|intros le0 F2];
+     eapply jspec_bind; [apply sp_push_for_range | intros [[[[vd vinit] vstep] vlen] vidx] _];
+     jstep; [apply sp_jsln; solveF|]; jstep; [apply sp_jsln; solveF|]; jstep; [apply sp_jsln; solveF|];
+     apply sp_visit_loop; auto; solveF).
 Qed.
 
 Lemma sp_visit_foreach var lst body ie : Pn lst -> Pn body -> Forall Pn (opt_list ie) -> jsp T (visit_foreach w var lst body ie).
 Proof.
-  intros Hl Hb Fi. unfold visit_foreach. eapply jspec_bind. apply sp_push_for_each. intros [[[vd vlist] vlen] vidx] _.
-  destruct ie as [ie|]; cbn in Fi; fsplit; jgo.
+  intros Hl Hb Fi. unfold visit_foreach.
+  eapply jspec_bind. apply sp_block; auto. intros le0 F0.
+  eapply jspec_bind. apply sp_push_for_each. intros [[[vd vlist] vlen] vidx] _.
+  jstep. apply sp_jsln; solveF. jstep. apply sp_jsln; solveF. apply sp_visit_loop; auto. solveF.
 Qed.
 
 Lemma sp_case_values vs : Forall Pn vs -> jsp T (case_values w vs).
@@ -513,6 +540,8 @@ Proof.
     match goal with |- context [match ?l with NFunc _ _ _ => _ | _ => _ end] => destruct l end; try solve [jgo2].
     match goal with |- context [bstr_eqb ?a ?b] => destruct (bstr_eqb a b) end; [|jgo2]. apply sp_visit_for_range; auto.
     match goal with H : Pn (NFunc _ _ _) |- _ => pnc H; auto end.
+  - (* NLetValue *)
+    eapply jspec_bind. apply sp_block; auto. intros v Fv. jgo2.
 Qed.
 
 Lemma sp_walk_body n : Pn n -> jsp T (jwalk_body o w n).
